@@ -15,7 +15,7 @@ META = {
     "level_text": "Theorems C20_invariant (every ByteString reachable through any sequence of safe-API calls is valid UTF-8 — induction "
                   "over call sequences on a machine with shared buffers), C20_split_valid/_panics_iff/_agrees, C20_try_from/C20_from, "
                   "C20_slice/_converse, C20_slice_ref_* (list level and machine level), C20_agree/C20_cmp_trans/C20_hash_prefix_free, "
-                  "C20_valid_app, C20_order_is_code_point_order and C20_utf8_definition (DFA = concatenations of encodings of Unicode scalar values) hold for ALL byte strings, indices and "
+                  "C20_valid_app, C20_order_is_code_point_order, C20_decode_unique and C20_utf8_definition (DFA = concatenations of encodings of Unicode scalar values) hold for ALL byte strings, indices and "
                   "call sequences (no bounds) on a Gallina model of bytestring/src/lib.rs. The model is tied to the code by running the "
                   "extracted model and the real crate on every byte string of length <= 5 over a 14-fragment "
                   "alphabet x every constructor x all split indices 0..len+1 x all sub-slices x slice_ref (own window, shifted window, "
